@@ -28,7 +28,7 @@ ASSUMPTIONS = [
     "earlier points}, auto_index and flush_on_insert symbolic booleans; 1 or 2 points per call, in or out of time order",
     "asserted (a): no read/iteration on the handle; every write starts at an offset >= L; truncate never below the old L; bytes written "
     "== the csv encoding of the points; the sequence of I/O calls equals the sequence observed for an EMPTY file (L = pos = 0)",
-    "(b) real files: 0..3 stored points, an early-stopping get()/contains()/partial iteration before the insert; old bytes are a prefix "
+    "(b) real files: 0, 1, 2, 3 and 160 stored points (> 8 KiB), an early-stopping get()/contains()/partial iteration before the insert; old bytes are a prefix "
     "of the new bytes; the recorded I/O call list of the insert is identical for every database size",
     "outside the claim: storage classes other than CSVStorage; OS-level behaviour of O_APPEND",
 ]
@@ -145,12 +145,15 @@ def _scenario(params, make_handle):
             db._index.invalidate()
         elif idx == "valid2":
             db._index.build([_pt(0, T0), _pt(1, T0 + 10)])
-        times = [T0 + 20, T0 + 30] if order == "in" else [T0 + 5, T0 + 1]
+        times = [T0 + 20, T0 + 30, T0 + 30] if order == "in" else ([T0 + 5, T0 + 1, T0 + 40] if order == "out" else [T0 + 10, T0 + 10, T0 + 10])
         pts = [_pt(i, times[i]) for i in range(npts)]
+        how = params.get("how", "db")
+        tgt = db.measurement("hm") if how == "handle" else db
+        kw = {"compact_key_prefixes": True} if how == "compact" else ({"measurement": "other"} if how == "measurement" else {})
         if npts == 1:
-            r = db.insert(pts[0])
+            r = tgt.insert(pts[0], **kw)
         else:
-            r = db.insert_multiple(pts)
+            r = tgt.insert_multiple(iter(pts), **kw)
         require(r == npts, lambda: f"insert returned {r}")
     finally:
         st.os = old_os
@@ -194,11 +197,12 @@ def h_real(params):
         order = choose("order", 2)
         pre_read = choose("pre_read", 5)
         logs = []
-        for n in range(4):
+        sizes = [0, 1, 2, 3, 160]  # 160 rows: > 8 KiB, beyond one read-ahead chunk of the text layer
+        for n in sizes:
             path = os.path.join(os.path.dirname(h.path), f"real{n}.csv")
             db = TinyFlux(path, auto_index=ai)
-            for i in range(n):
-                db.insert(_pt(i, T0 + i * 10))
+            if n:
+                db.insert_multiple([_pt(i, T0 + i * 10) for i in range(n)])
             # reads that leave the cursor somewhere inside the file
             if pre_read == 1:
                 db.get(TagQuery().k == "x")
@@ -235,8 +239,8 @@ def h_real(params):
             require(len(db2) == n + 1, lambda: f"n={n}: reopened database has {len(db2)} rows")
             db2.close()
             db.close()
-        for n in range(1, 4):
-            require(logs[n] == logs[0], lambda: f"I/O calls of one insert depend on the database size: {logs[0]} (empty) vs {logs[n]} ({n} points)")
+        for j, n in enumerate(sizes[1:], 1):
+            require(logs[j] == logs[0], lambda: f"I/O calls of one insert depend on the database size: {logs[0]} (empty) vs {logs[j]} ({n} points)")
         if params.get("twin"):
             fail("reachability twin")
 
@@ -249,9 +253,10 @@ HARNESS = {"h_fake": h_fake, "h_real": h_real}
 def obligations(tier):
     obs = []
     for idx in ("invalid", "valid0", "valid2"):
-        for npts in (1, 2):
-            for order in ("in", "out"):
-                obs.append({"id": f"fake/{idx}/{npts}pt/{order}", "harness": "h_fake", "params": {"idx": idx, "npts": npts, "order": order}, "budget_s": 60})
+        for npts in (1, 2, 3):
+            for order in ("in", "out", "tie"):
+                for how in ("db", "handle", "compact", "measurement"):
+                    obs.append({"id": f"fake/{idx}/{npts}pt/{order}/{how}", "harness": "h_fake", "params": {"idx": idx, "npts": npts, "order": order, "how": how}, "budget_s": 60})
     obs.append({"id": "real/prefix-and-calls", "harness": "h_real", "params": {}, "budget_s": 120})
     obs.append({"id": "twin/fake", "harness": "h_fake", "params": {"idx": "valid0", "npts": 1, "order": "in", "twin": True}, "budget_s": 30})
     obs.append({"id": "twin/real", "harness": "h_real", "params": {"twin": True}, "budget_s": 60})
